@@ -44,15 +44,41 @@ type Engine struct {
 	RunGoInline       bool
 	SkipInit          map[string]bool
 
-	intrinsics map[string]intrinsicFn
-	opaquePkgs map[string]string
-	harnessPkg map[*ssa.Package]bool
+	intrinsics  map[string]intrinsicFn
+	opaquePkgs  map[string]string
+	opaqueCache sync.Map
+	harnessPkg  map[*ssa.Package]bool
 
 	// ConstOverride: per function name -> map from constant value to replacement (constant scaling)
 	LoadDur time.Duration
 }
 
 func (e *Engine) isHarnessPkg(p *ssa.Package) bool { return true }
+
+// OpaquePrefixes: calls into these packages have no effect and return zero
+// values (logging and metrics have empty bodies unless they are the subject).
+var OpaquePrefixes = []string{
+	"github.com/rs/zerolog",
+	"github.com/prometheus/",
+	"log",
+}
+
+func (e *Engine) isOpaquePkg(path string) bool {
+	if path == "" {
+		return false
+	}
+	if v, ok := e.opaqueCache.Load(path); ok {
+		return v.(bool)
+	}
+	r := false
+	for _, p := range OpaquePrefixes {
+		if path == p || strings.HasPrefix(path, p+"/") || (strings.HasSuffix(p, "/") && strings.HasPrefix(path, p)) {
+			r = true
+		}
+	}
+	e.opaqueCache.Store(path, r)
+	return r
+}
 
 // Load type-checks and builds SSA for the given package patterns of the repo
 // with overlay harness files injected.
@@ -483,7 +509,9 @@ func (in *Interp) buildTape(model map[string]uint64) []TapeEntry {
 			i += 1 + inp.N
 			continue
 		}
-		tape = append(tape, TapeEntry{Tag: inp.Tag, Kind: inp.Kind, Val: modelVal(model, inp.Term)})
+		if !inp.Internal {
+			tape = append(tape, TapeEntry{Tag: inp.Tag, Kind: inp.Kind, Val: modelVal(model, inp.Term)})
+		}
 		i++
 	}
 	return tape
